@@ -372,6 +372,11 @@ class Exec(Engine):
             if isinstance(v, VAny) and name in ('lower', 'upper', 'strip'):
                 # an opaque value used as a string: deterministic opaque result
                 return [(st, VFn(('anystr', v, name)))]
+            if isinstance(v, VAny):
+                # an opaque object: its attribute is an opaque, deterministic value (assumption: the object has
+                # the attributes the code reads; listed in the evidence)
+                self.note('opaque objects are assumed to have the attributes the code reads from them')
+                return [(st, VAny(z3.Function('attr_%s' % name, IntS, IntS)(v.t)))]
             if st.spec:
                 return [(st, VAny())]
             raise Unsupported('attribute %r of an opaque value' % name, node)
